@@ -130,8 +130,19 @@ def body_geometry(env):
             env.gt('gap cell %d: flow area positive' % (f + 1), c.gap_params['area'][f], 0.0)
 
 
+def _subset_layout(mask, types):
+    """Layout of the 7-position core whose positions are selected by the bits of `mask`; types cycle over `types`."""
+    out = []
+    for k, (ring, pos) in enumerate(SC.POS7):
+        if mask >> k & 1:
+            out.append((types[k % len(types)], ring, pos))
+    return tuple(out)
+
+
 def body_topology(env):
     layout = env.params['layout']
+    if isinstance(layout, int):
+        layout = _subset_layout(layout, env.params['types'])
     r = _reactor(env, layout)
     c = r.core
     adj = c._asm_sc_adj
@@ -172,6 +183,13 @@ def instances(tier):
         inst.append(dict(label='geometry[%s]' % l, body=body_geometry, params={'layout': l}, max_paths=64, max_depth=400, timeout_ms=120000))
     for l in lay_t:
         inst.append(dict(label='topology[%s]' % l, body=body_topology, params={'layout': l}, check_vacuity=False))
+    # subsets of the 7-position core (bit k = position k of centre, ring position 1..6): all 127 subsets with one assembly type (quick) / one type
+    # and a mix of three mesh kinds (thorough)
+    masks = list(range(1, 128))
+    for m in masks:
+        for types in ((('a2',),) if tier == 'quick' else (('a2',), ('a3', 'a2', 'ur'))):
+            inst.append(dict(label='topology-subset[positions=%s,types=%s]' % (format(m, '07b')[::-1], '/'.join(types)), body=body_topology,
+                             params={'layout': m, 'types': types}, check_vacuity=False))
     return inst
 
 
@@ -185,9 +203,9 @@ def main():
                      'symmetric, total area independent of the meshes (self-composition over two independent mesh symbol sets) are SMT '
                      'queries.  Part B: the index tables built by the real Core.load per enumerated layout are checked directly '
                      '(enumeration of configurations, no symbolic dimension).'),
-        bounds={'layouts': '1, 2, 3 positions (mixed 2-/3-ring, unrodded, double duct, six-node), ring without centre (quick) / + three 6-7 position layouts',
+        bounds={'layouts': '1, 2, 3 positions (mixed 2-/3-ring, unrodded, double duct, six-node), ring without centre (quick) / + three 6-7 position layouts; topology: all 127 subsets of the 7-position core, one mesh kind (quick) / one and three mesh kinds',
                 'mesh kinds per layout': 'up to 3'},
-        outside=['all 127 subsets of a 7-position core and 19/37-position cores (only the listed layouts are enumerated)'],
+        outside=['19/37-position cores (only a sparse 19-position grid in C07); mixed mesh kinds on all 127 subsets of the 7-position core only in the thorough tier'],
         level_assumptions=['cells per side * pitch + 2 * corner length = hex side for every mesh kind (C08 GEOM)'])
 
 
